@@ -16,6 +16,9 @@
 package beaconblock
 
 import (
+	"github.com/protolambda/zrnt/eth2/beacon/deneb"
+	"github.com/protolambda/zrnt/eth2/beacon/capella"
+	"github.com/protolambda/zrnt/eth2/beacon/bellatrix"
 	"bufio"
 	"context"
 	"encoding/hex"
@@ -61,7 +64,8 @@ type chainPlan struct {
 // operation kind changes the outcome: MIN_SLASHING_PENALTY_QUOTIENT{,_ALTAIR,_BELLATRIX} = 128/64/32,
 // PROPORTIONAL_SLASHING_MULTIPLIER* = 1/2/3 (the mainnet values), INACTIVITY_PENALTY_QUOTIENT* = 256/384/128,
 // MAX_PROPOSER_SLASHINGS 3, MAX_ATTESTER_SLASHINGS 2, MAX_VOLUNTARY_EXITS 4, MAX_DEPOSITS 5, MAX_BLOBS_PER_BLOCK 6,
-// MAX_BLS_TO_EXECUTION_CHANGES 7, MAX_ATTESTATIONS 20.
+// MAX_BLS_TO_EXECUTION_CHANGES 7, MAX_ATTESTATIONS 20; MAX_EFFECTIVE_BALANCE 40 ETH, EJECTION_BALANCE 33 ETH, and the electra
+// preset's MIN_ACTIVATION_BALANCE 24 ETH / MAX_EFFECTIVE_BALANCE_ELECTRA 2000 ETH / MAX_BLOBS_PER_BLOCK_ELECTRA 9.
 func apart(cfg *chain.Config) *chain.Config {
 	s := cfg.Spec
 	s.MIN_SLASHING_PENALTY_QUOTIENT, s.MIN_SLASHING_PENALTY_QUOTIENT_ALTAIR, s.MIN_SLASHING_PENALTY_QUOTIENT_BELLATRIX = 128, 64, 32
@@ -69,6 +73,12 @@ func apart(cfg *chain.Config) *chain.Config {
 	s.INACTIVITY_PENALTY_QUOTIENT, s.INACTIVITY_PENALTY_QUOTIENT_ALTAIR, s.INACTIVITY_PENALTY_QUOTIENT_BELLATRIX = 256, 384, 128
 	s.MAX_PROPOSER_SLASHINGS, s.MAX_ATTESTER_SLASHINGS, s.MAX_VOLUNTARY_EXITS, s.MAX_DEPOSITS = 3, 2, 4, 5
 	s.MAX_BLOBS_PER_BLOCK, s.MAX_BLS_TO_EXECUTION_CHANGES, s.MAX_ATTESTATIONS = 6, 7, 20
+	// Gwei constants: no two alike, and none equal to the 32 ETH several of them share in the published presets —
+	// including the electra preset constants that deneb code can reach by mistake
+	const eth = 1_000_000_000
+	s.MAX_EFFECTIVE_BALANCE, s.MIN_ACTIVATION_BALANCE, s.MAX_EFFECTIVE_BALANCE_ELECTRA = 40*eth, 24*eth, 2000*eth
+	s.EJECTION_BALANCE = 33 * eth
+	s.MAX_BLOBS_PER_BLOCK_ELECTRA, s.MIN_PER_EPOCH_CHURN_LIMIT_ELECTRA, s.MAX_PER_EPOCH_ACTIVATION_EXIT_CHURN_LIMIT = 9, 100*eth, 200*eth
 	cfg.ID += "+apart"
 	return cfg
 }
@@ -422,6 +432,12 @@ func genChain(o hreg.Opts, p chainPlan, mutants bool) (out seqOut) {
 			}
 			orc := ComputeOracle(spec, preFlat, tb, engine, pr)
 			out.lines = append(out.lines, fmt.Sprintf("blk mode=post tag=%s fv=%x %s", tagOf(tag), fv[:], flatblock.Dump(spec, tb, orc)))
+			// the execution-payload step on its own (same pre-state, same block): for the block itself and for every
+			// variant that concerns the payload or the blob commitments
+			if sb.Body().Payload != nil && (strings.HasPrefix(tag, "valid:") || strings.HasPrefix(tag, "payload.extra_data") || strings.HasPrefix(tag, "blob_kzg_commitments")) {
+				out.lines = append(out.lines, fmt.Sprintf("blk mode=payload tag=%s fv=%x %s", tagOf(tag+":payload-step-alone"), fv[:], flatblock.Dump(spec, tb, orc)))
+				stat("payload_step_alone", strings.SplitN(tag, ":", 2)[0])
+			}
 		}
 		emit := func(tag string, sb *chain.SignedBlock, engine string, known *[32]byte) {
 			emitOn(spec, fs, step.PreBlock, tag, sb, engine, known, false)
@@ -534,6 +550,7 @@ func genChain(o hreg.Opts, p chainPlan, mutants bool) (out seqOut) {
 			}
 			if mutants {
 				bvs = append(bvs, exitAgeVariants(c, spec, step, fs)...)
+				bvs = append(bvs, secondBlockVariant(c, spec, step)...)
 			}
 			for _, v := range bvs {
 				var view common.BeaconState = step.PreBlock
@@ -711,7 +728,7 @@ func loadPre(kv map[string]string) (p *preState) {
 
 func runBlock(p *preState, kv map[string]string) string {
 	mode := kv["mode"]
-	if mode != "post" && mode != "full" {
+	if mode != "post" && mode != "full" && mode != "payload" {
 		return "bad-op"
 	}
 	var fv common.Version
@@ -738,7 +755,35 @@ func runBlock(p *preState, kv map[string]string) string {
 	}
 	env := tb.Obj().Envelope(sp, common.ComputeForkDigest(fv, p.gvr))
 	var post common.BeaconState = st
-	if mode == "full" {
+	if mode == "payload" {
+		// the fork's ProcessExecutionPayload alone, called directly on the pre-state (ProcessBlock repeats some of its
+		// checks later on — CheckLimits —, so a defect in them is invisible through the block entry)
+		ctx := context.Background()
+		var err error = errors.New("no payload in this fork")
+		switch {
+		case tb.Bellatrix != nil:
+			if x, ok := st.(bellatrix.ExecutionTrackingBeaconState); ok {
+				if eng, ok := sp.ExecutionEngine.(bellatrix.ExecutionEngine); ok {
+					err = bellatrix.ProcessExecutionPayload(ctx, sp, x, &tb.Bellatrix.Message.Body.ExecutionPayload, eng)
+				}
+			}
+		case tb.Capella != nil:
+			if x, ok := st.(capella.ExecutionTrackingBeaconState); ok {
+				if eng, ok := sp.ExecutionEngine.(capella.ExecutionEngine); ok {
+					err = capella.ProcessExecutionPayload(ctx, sp, x, &tb.Capella.Message.Body.ExecutionPayload, eng)
+				}
+			}
+		case tb.Deneb != nil:
+			if x, ok := st.(deneb.ExecutionTrackingBeaconState); ok {
+				if eng, ok := sp.ExecutionEngine.(deneb.ExecutionEngine); ok {
+					err = deneb.ProcessExecutionPayload(ctx, sp, x, &tb.Deneb.Message.Body, eng)
+				}
+			}
+		}
+		if err != nil {
+			return "err"
+		}
+	} else if mode == "full" {
 		us := chain.WrapState(st)
 		if err := common.StateTransition(context.Background(), sp, epc, us, env, true); err != nil {
 			return "err"
